@@ -1,6 +1,6 @@
 (* BulkCheck.v — executable comparison of the HandleBulkBody model with observations
    of the real function (used by the generated case files of C15). *)
-From SigM Require Import Base Bulk BulkPool.
+From SigM Require Import Base Bulk BulkPool BulkAlias.
 Open Scope N_scope.
 
 Definition L := mkLine.
@@ -65,4 +65,43 @@ Fixpoint check_hist (cases : list (list hev * list N * list line * obs)) (i : na
   | (h, bad, b, o) :: r =>
     (if forallb disciplined_ev h && agrees_after h bad b o && self_check bad b then [] else [i])
     ++ check_hist r (S i)
+  end.
+
+(* ---- stream "alias": one process, a history of alias definitions (PUT /<index>/_alias/<alias>)
+   and bulk requests that address indexes by name and through aliases.  The model state (alias
+   map, segment stores with their table names) is threaded through the steps.  Per bulk step:
+   [names] = the names the harness searched after the flush (index names and aliases),
+   [o_found o] = (name searched, document) per hit, [tables] = (name, growth of the record
+   count of the unrotated segment stores whose VirtualTableName is that name, from
+   writer.GetUnrotatedVTableCountsForAll before/after the request).  Document identities are
+   unique over the whole history (step number * 1000 + line). ---- *)
+Inductive astep :=
+| SAlias (a i : N)
+| SBulk (bad : list N) (b : list line) (names : list N) (o : obs) (tables : list (N * N)).
+
+Definition in_body (b : list line) (id : N) : bool := existsb (fun l => l_id l =? id) b.
+
+Definition alias_found (al : amap) (ss : list segstore) (b : list line) (names : list N) : list (N * N) :=
+  flat_map (fun x => map (pair x) (filter (in_body b) (searchable al ss x))) names.
+
+Definition tables_ok (ss ss' : list segstore) (tables : list (N * N)) : bool :=
+  forallb (fun t => N.of_nat (length (table_docs ss' (fst t))) =?
+                    N.of_nat (length (table_docs ss (fst t))) + snd t) tables.
+
+Fixpoint check_alias (steps : list astep) (s : astate) (i : nat) : list nat :=
+  match steps with
+  | [] => []
+  | SAlias a x :: r => check_alias r (run_aev s (EAlias a x)) (S i)
+  | SBulk bad b names o tables :: r =>
+    let so := store_of bad in
+    let rs := handle so b in
+    let ss' := bulk_after s so b in
+    (if list_eqb N.eqb (r_items rs) (o_items o) &&
+        Bool.eqb (r_errors rs) (o_errors o) &&
+        (r_processed rs =? o_processed o) &&
+        Bool.eqb (r_allfailed rs) (o_allfailed o) &&
+        same_multiset (alias_found (fst s) ss' b names) (o_found o) &&
+        tables_ok (snd s) ss' tables &&
+        filed_ok ss' && self_check bad b
+     then [] else [i]) ++ check_alias r (fst s, ss') (S i)
   end.
